@@ -1,6 +1,7 @@
 (* C08 — A finished bundle contains everything that was added or discovered. *)
 From Slug Require Import Base.Str Base.PathAlg Addr.Resolve Addr.ResolveProofs
   Bundle.Versions Bundle.Builder Bundle.BuilderProofs Bundle.BuilderTrace.
+From Slug Require Addr.Url Addr.Parse Bundle.Lookup Bundle.ManifestRT Bundle.ClosedBundle.
 
 (* For every world (fetcher, registry, finders as total functions), every
    sequence of Add calls and Close, with any fuel: if no operation reported an
@@ -49,6 +50,32 @@ Proof.
   unfold meta_inv in H. rewrite H. apply metas_of_in.
 Qed.
 
+(* End to end, through the manifest: after an error-free build, take the
+   document Close writes for the builder's package table (every package string
+   being the printed form of an address value - C06 - and every content having a
+   plain directory name, as the hash-derived names are) with any registry
+   section that loads.  OpenDir accepts it, and the bundle it returns looks up
+   every source that was added or discovered - transitively, through finder
+   reports, registry resolution and relative resolution - at
+   <root>/<directory of the package's content>/<sub-path>: inside the bundle
+   directory, in the directory that holds exactly the fetched content. *)
+Theorem C08_closed_bundle_lookups :
+  forall (vof : pkg -> Parse.rpkg) (dname : content -> str),
+    (forall c, Parse.all_ascii (dname c) = true /\ Lookup.local_dir_ok (dname c) = true) ->
+  forall fuel w ops st outs root regs reg depr,
+    run_ops fuel w init_state ops = (st, outs) ->
+    forallb ok_outcome outs = true ->
+    (forall p, In p (map fst (dirs st)) -> Parse.parse_remote_pkg p = Url.Ok (vof p) /\ Parse.rpkg_string (vof p) = p) ->
+    Lookup.load_registry regs [] [] = Url.Ok (reg, depr) ->
+    exists b,
+      Lookup.open_dir root (Lookup.mkManifest 1
+          (ManifestRT.write_packages (ClosedBundle.dir_table vof dname st) (ClosedBundle.meta_table vof st)) regs) = Url.Ok b /\
+      forall a, reach w (roots_of ops) (IRem a) ->
+        exists c, assoc str_eqb (fst (fst a)) (dirs st) = Some c /\
+                  Lookup.local_path_remote b (vof (fst (fst a))) (snd (fst a))
+                  = Some (Lookup.join3 root (dname c) (snd (fst a))).
+Proof. exact ClosedBundle.closed_bundle_lookups. Qed.
+
 (* Relative dependencies resolve inside the declaring package: same package,
    valid sub-path (from C11). *)
 Theorem C08_relative_inside_package :
@@ -73,3 +100,4 @@ Print Assumptions C08_build_is_closure.
 Print Assumptions C08_registry_resolution_is_cache_independent.
 Print Assumptions C08_relative_inside_package.
 Print Assumptions C08_metadata_retrievable.
+Print Assumptions C08_closed_bundle_lookups.
